@@ -131,6 +131,9 @@ def _parallelise(keys, injs, d: Path, log: Path, workers: int, rk):
                        max_workers=workers or None, disable_tqdm=True)
 
 
+WATCHDOG_S = 90.0
+
+
 def real_case(case: dict) -> list:
     """executes the script of one case in its own cache directory; returns one observation per step"""
     d = SCRATCH / f"case-{os.getpid()}-{case['id']}"
@@ -155,11 +158,31 @@ def real_case(case: dict) -> list:
                 if pid == 0:
                     code = 0
                     try:
+                        os.setsid()  # own process group: the watchdog below can end the run and its pool together
                         _parallelise(keys, injs, cdir, log, workers, rk)
                     except BaseException:  # noqa: BLE001  ProcessExpired / load errors end the run
                         code = 3
                     os._exit(code)
-                _, st = os.waitpid(pid, 0)
+                # watchdog: a pool whose worker was killed at an unlucky instant can wait for ever (observed once in
+                # a thorough run); ending it from outside is just one more crash point, but its on-disk state is then
+                # not the one the model predicts for the scripted cut, so the case is reported as inconclusive
+                import signal
+                import time as _time
+
+                deadline = _time.time() + WATCHDOG_S
+                st = None
+                while True:
+                    done, st = os.waitpid(pid, os.WNOHANG)
+                    if done:
+                        break
+                    if _time.time() > deadline:
+                        try:
+                            os.killpg(pid, signal.SIGKILL)
+                        except ProcessLookupError:
+                            pass
+                        os.waitpid(pid, 0)
+                        return [{"inconclusive": "crash-injected run did not end within the watchdog limit"}]
+                    _time.sleep(0.01)
                 how = "killed" if os.WIFSIGNALED(st) else ("raised" if os.WEXITSTATUS(st) else "completed")
                 out.append({"fs": _obs_fs(cdir, keys, before, rk), "ended": how})
             elif step[0] == "run":
@@ -400,6 +423,13 @@ def shape_of(case):
 
 
 def judge_case(ctx, case, R, M):
+    if R and isinstance(R[0], dict) and "inconclusive" in R[0]:
+        ctx.hist["inconclusive_watchdog"] = ctx.hist.get("inconclusive_watchdog", 0) + 1
+        if ctx.hist["inconclusive_watchdog"] > 25:
+            # far too many hangs to be the rare kill-at-an-unlucky-instant: something is wrong, say so
+            ctx.violation({"id": case["id"], "keys": case["keys"], "script": case["script"]}, R[0],
+                          "crash-injected runs keep hanging (more than 25 in one check)")
+        return
     ctx.count(case, shape_of(case), nontrivial=True)
     keys = case["keys"]
     all_ok = ["ok", [[k, vid] for k, vid, _ in keys]]
